@@ -15,6 +15,8 @@ mod leaf;
 mod parser;
 mod pattern;
 mod util;
+#[cfg(logos_verif)]
+pub mod verif;
 
 #[macro_use]
 #[allow(missing_docs)]
